@@ -257,7 +257,7 @@ def run(chk):
     chk.rule = (c12stanza.RULE + " || connection streams: negsim corpus + random negotiation scenarios, every negotiation stage x "
                 "every teardown (close, reset, stream error, time-out, xmpp_disconnect, release while up), SCRAM exchanges pending at "
                 "teardown, compression on, SM state moved between connection objects (get/set/free, restore of captured blobs), "
-                "xmpp_conn_clone/release interleaved with connects, judged by the tracking allocator (END live=0 allocerr=0 fds "
+                "xmpp_conn_clone/release interleaved with connects, SRV lookups whose DNS answer is partly malformed (good record before / after a record with an undecodable owner or target name, truncation at every offset, lying rdlength / ancount), xmpp_conn_send_queue_drop_element with stream management on and the transport blocked (oldest / youngest, with and without the linked <r/>, partially written head), judged by the tracking allocator (END live=0 allocerr=0 fds "
                 "balanced, no CRASH); allocation-failure injection allocfail n for n = 1..N at fixed sessions; "
                 "handover: random conn/clone/release/connect/disconnect/get_sm/set_sm/free_sm programs, abstract model vs simulated world")
     chk.assumptions = list(c12stanza.ASSUMPTIONS) + [
